@@ -198,6 +198,7 @@ def run(chk: Check) -> None:
     run_diagnostic_parity(chk, ix)
     run_arg_constructor_guards(chk, ix)
     run_fstring_collapse(chk, ix)
+    run_pos_only_special_methods(chk, ix)
 
     r3 = chk.rule("R14.3", "Errors.report clamps end_line >= line and (same line) end_column > column before the ErrorInfo is built", floor=2)
     rp = ix.func("mypy.errors.Errors.report")
@@ -497,3 +498,46 @@ def run_fstring_collapse(chk: Check, ix) -> None:
         r7.ok("the merged literal's end position is extended to the folded piece", f.loc(ends[0]))
     else:
         r7.violation("the merged literal's end position is extended to the folded piece", f.loc(), "end_line / end_column of the merged StrExpr are no longer updated: its span differs from the one the default parser produces")
+
+
+def run_pos_only_special_methods(chk: Check, ix) -> None:
+    """R14.8: both front ends make the parameters of special methods positional-only in the same way."""
+    from ..cfg import branch_conditions
+    r8 = chk.rule("R14.8", "for functions named like binary/unary special methods (sharedparse.special_function_elide_names) both front ends set `pos_only = True` on *every* parameter of the list, under the same two conditions (the option pos_only_special_methods and the name test): the loop body is the bare assignment, with no further test on the parameter's kind. A difference changes `arg_names` of the FuncItem and of its CallableType (signatures in messages, keyword calls of `__getitem__`, override checks)", floor=4)
+    sites = []
+    for q in ("mypy.fastparse.ASTConverter.do_func_def", "mypy.nativeparse.read_func_def"):
+        f = ix.func(q)
+        par = f.module.parents()
+        found = None
+        for lp in ast.walk(f.node):
+            if isinstance(lp, ast.For):
+                asg = [a for a in ast.walk(lp) if isinstance(a, ast.Assign) and isinstance(a.targets[0], ast.Attribute) and a.targets[0].attr == "pos_only" and isinstance(a.value, ast.Constant) and a.value.value is True]
+                if asg:
+                    found = (lp, asg[0])
+        if found is None:
+            r8.violation(f"{q}: parameters of special methods are made positional-only", f.loc(), "no loop setting `pos_only = True` was found")
+            continue
+        lp, a = found
+        pos, neg = branch_conditions(par, f.node, lp)
+        atoms = set()
+        for t in pos:
+            if isinstance(t, ast.Call) and call_name(t) == "special_function_elide_names":
+                atoms.add("special_function_elide_names(name)")
+            elif isinstance(t, ast.Attribute) and t.attr == "pos_only_special_methods":
+                atoms.add("options.pos_only_special_methods")
+            else:
+                atoms.add(norm(t))
+        sites.append((q, f, lp, a, atoms))
+        key = f"{q}: every parameter is marked (the loop body is the bare assignment)"
+        inner_pos, inner_neg = branch_conditions(par, lp, a)
+        if not inner_pos and not inner_neg and len(lp.body) == 1:
+            r8.ok(key, f.loc(a))
+        else:
+            r8.violation(key, f.loc(a), f"the assignment is under `{' and '.join(norm(t) for t in inner_pos + inner_neg) or 'other statements'}`: parameters that fail the test keep their names (the other front end drops them), so `*args`, `**kw` and keyword-only parameters of `__getitem__`, `__exit__`, ... get different signatures")
+    if len(sites) == 2:
+        key = "both front ends mark under the same conditions"
+        if sites[0][4] == sites[1][4]:
+            r8.ok(key, sites[1][1].loc(sites[1][2]), f"conditions: {sorted(sites[0][4])}")
+        else:
+            r8.violation(key, sites[1][1].loc(sites[1][2]), f"default parser: {sorted(sites[0][4])}; native parser: {sorted(sites[1][4])}")
+        r8.ok("both loops found", sites[0][1].loc(sites[0][2]))
